@@ -275,6 +275,15 @@ def py_functions(tier):
         body += "    return bytes(sock.sent) == frame(inst, data.encode())\n"
         out.append((name, body, "send_msg puts inst + 2-byte big-endian length + data (%d bytes) on the wire, however send() splits it" % l,
                     dict(shape="payload length %d" % l, chunks=min(3 + l, maxcuts))))
+    # non-ASCII payloads: the size field counts bytes, not characters
+    body = ("def send_u(inst: int, c: int, d: int, c0: int, c1: int) -> bool:\n    \"\"\"\n    pre: 0 <= inst <= 255 and 128 <= c <= 0x7ff and 0 <= d < 128\n    post: __return__\n    \"\"\"\n"
+            "    data = chr(c) + chr(d)\n    sock = FakeSocket(b'', [c0, c1])\n    st = MessageStream(sock)\n    st.send_msg(inst, data)\n"
+            "    return bytes(sock.sent) == frame(inst, data.encode())\n")
+    out.append(("send_u", body, "send_msg of a payload with a 2-byte character announces its byte length", dict(shape="payload = one 2-byte UTF-8 character + one ASCII character", chunks=2)))
+    body = ("def recv_u(inst: int, b0: int, b1: int, c0: int, c1: int, c2: int) -> bool:\n    \"\"\"\n    pre: 0 <= inst <= 255 and 0xC2 <= b0 <= 0xDF and 0x80 <= b1 <= 0xBF\n    post: __return__\n    \"\"\"\n"
+            "    payload = bytes([b0, b1])\n    sock = FakeSocket(frame(inst, payload), [c0, c1, c2])\n    st = MessageStream(sock)\n    got = st.recv_msg()\n"
+            "    return got == (inst, payload.decode('utf-8')) and len(sock.pending) == 0\n")
+    out.append(("recv_u", body, "recv_msg decodes a 2-byte UTF-8 payload however the stream is split", dict(shape="payload = one 2-byte UTF-8 character", chunks=3)))
     return out
 
 
@@ -293,7 +302,9 @@ def crosshair(rep, s, tier):
     d = os.path.join(s.root, "py")
     os.makedirs(d, exist_ok=True)
     funcs = py_functions(tier)
-    mod = cls + "\n" + PY_HARNESS + "\n\n" + "\n\n".join(f[1] for f in funcs)
+    # the script's own top-level imports come along (the class may use them); its top level proper opens a socket and cannot be imported
+    imports = "\n".join(l for l in src.splitlines() if re.match(r"^(import |from \S+ import )", l))
+    mod = imports + "\n\n" + cls + "\n" + PY_HARNESS + "\n\n" + "\n\n".join(f[1] for f in funcs)
     path = os.path.join(d, "repl_framing.py")
     with open(path, "w") as f:
         f.write(mod)
@@ -348,6 +359,142 @@ def crosshair(rep, s, tier):
                 o["model"] = call
 
 
+def py2smt_send(rep, s):
+    """send_msg for a payload of *symbolic* length (py2smt): the size field is the UTF-8 byte length for every payload that
+    fits the 16-bit field, and nothing is raised; longer payloads are the listed known finding."""
+    import z3
+    import py2smt as P
+    src = s.read("src/scripts/repl_server.py")
+    cls = cut_class(src, "MessageStream")
+    base = dict(engine="py2smt (ast -> z3 %s)" % z3.get_version_string(), functions=["repl_server.py MessageStream.send_msg"], solver="z3",
+                symbolic=["instruction byte", "payload: a string of symbolic character count n and UTF-8 byte length m, n <= m <= 4n (contents opaque)"],
+                bounds={"payload_bytes": "unbounded"})
+    try:
+        I = P.Interp({"repl_server": cls})
+        inst = P.VInt("int", z3.Int("inst"))
+        n = z3.Int("nchars")
+        data = P.VStr("?", length=n)
+        sock = P.VObj("socket")
+        st = P.VObj("MessageStream")
+        st.attrs["socket"] = sock
+        st.attrs["_read_buf"] = I.construct("bytearray", [])
+        assume = [inst.t >= 0, inst.t <= 255, n >= 0]
+        I.base_extra = []
+        results = []
+
+        def thunk():
+            sock.attrs["_sent"] = []
+            try:
+                r = I.call(I.getattr_(st, "send_msg"), [inst, data])
+                results.append(("ok", list(sock.attrs["_sent"])))
+                return r
+            except P.PyRaise as e:
+                results.append(("raise", e))
+                raise
+        paths = I.explore(thunk, assume)
+        extra = list(I.base_extra)
+    except (P.Unsupported, RecursionError) as e:
+        rep.add(Obligation(base, key="framing-python/send-any-length/*", verdict=INCONCLUSIVE, reason="unsupported-construct: %s" % e))
+        return
+    if len(paths) != len(results):
+        rep.add(Obligation(base, key="framing-python/send-any-length/*", verdict=INCONCLUSIVE, reason="path bookkeeping mismatch"))
+        return
+    sol = z3.Solver()
+    sol.set("timeout", 20000)
+
+    def sat(conds):
+        sol.push()
+        for c in conds:
+            sol.add(c)
+        r = sol.check()
+        m = sol.model() if r == z3.sat else None
+        sol.pop()
+        return str(r), m
+    found = {}
+    reach = 0
+    mlen = None
+    for (pc, outc, _), (kind, val) in zip(paths, results):
+        r, m = sat(assume + extra + pc)
+        if r != "sat":
+            continue
+        reach += 1
+        if kind == "raise":
+            # which payload lengths raise?
+            found.setdefault("raises", (val.cls, pc))
+            continue
+        segs = [x for b in val for x in b.segs]
+        if len(segs) != 3 or segs[0][0] != "int" or segs[1][0] != "int" or segs[2][0] != "opaque" or segs[0][2] != 1 or segs[1][2] != 2:
+            found.setdefault("layout", ("wire is not inst(1) + size(2) + payload: %r" % ([(x[0], x[2]) for x in segs],), pc))
+            continue
+        mlen = segs[2][2]
+        r1, m1 = sat(assume + extra + pc + [segs[0][1] != inst.t])
+        if r1 == "sat":
+            found.setdefault("layout", ("the first byte is not the instruction", pc))
+        r2, m2 = sat(assume + extra + pc + [segs[1][1] != mlen])
+        if r2 == "sat":
+            found.setdefault("size", ("the size field differs from the payload's byte length, e.g. %s characters / %s bytes -> size %s"
+                                      % (m2.eval(n, model_completion=True), m2.eval(mlen, model_completion=True), m2.eval(segs[1][1], model_completion=True)), pc))
+    if reach == 0:
+        rep.add(Obligation(base, key="framing-python/send-any-length/*", verdict=BROKEN, reason="no path reachable"))
+        return
+    for key, why in (("layout", "the wire is inst (1 byte) + size (2 bytes, big-endian) + the payload"), ("size", "the size field is the payload's UTF-8 byte length")):
+        if key in found:
+            rep.add(Obligation(base, key="framing-python/send-any-length/" + key, verdict=VIOLATED, reason=found[key][0], replay_note="symbolic-length counterexample; see the model in the reason"))
+        else:
+            rep.add(Obligation(base, key="framing-python/send-any-length/" + key, verdict=HELD, reason=why, vacuity={"paths_reachable": reach}))
+    # exceptions: only for payloads that do not fit the 16-bit size field
+    if "raises" in found and mlen is None:
+        # find the byte length term from the raising path: UTF8LEN term appears in extra
+        pass
+    exc_small = None
+    for (pc, outc, _), (kind, val) in zip(paths, results):
+        if kind != "raise":
+            continue
+        # is the exception possible for a payload of at most 65535 bytes?
+        lens = [c for c in extra]
+        ln_terms = [t for c in extra for t in c.children()] if extra else []
+        # the byte length is the UTF8LEN application in `extra` (And(ln >= n, ln <= 4n))
+        ln = extra[0].arg(0).arg(0) if extra else None
+        if ln is None:
+            continue
+        r, m = sat(assume + extra + pc + [ln <= 65535])
+        if r == "sat":
+            exc_small = (val.cls, m.eval(ln, model_completion=True))
+        r, m = sat(assume + extra + pc + [ln > 65535])
+        if r == "sat":
+            rep.add(Obligation(base, key="framing-python/send-any-length/fits-or-fails-cleanly", verdict=VIOLATED,
+                               reason="%s is raised inside send_msg for a payload of %s bytes (> 65535): the server thread dies and the session is lost" % (val.cls, m.eval(ln, model_completion=True)),
+                               replay_note="python3 -c 'int(70000).to_bytes(2, \"big\")' raises OverflowError; confirmed with the real class below"))
+    if exc_small:
+        rep.add(Obligation(base, key="framing-python/send-any-length/no-exception<=65535", verdict=VIOLATED,
+                           reason="%s is raised for a payload of %s bytes, which fits the 16-bit size field" % exc_small))
+    else:
+        rep.add(Obligation(base, key="framing-python/send-any-length/no-exception<=65535", verdict=HELD,
+                           reason="no exception for any payload of at most 65535 bytes"))
+    # native replay of the unlisted ones: run the real class with a payload of the model's size
+    for o in rep.obls:
+        if o["key"].startswith("framing-python/send-any-length/") and o["verdict"] == VIOLATED and not rep.known.lookup(rep.prop, o["key"]):
+            mm = re.search(r"payload of (\d+) bytes|(\d+) characters / (\d+) bytes", o["reason"])
+            nbytes = int(mm.group(1) or mm.group(3)) if mm else 40000
+            nchars = int(mm.group(2)) if (mm and mm.group(2)) else nbytes
+            code = ("import sys\nexec(open(sys.argv[1]).read())\n"
+                    "class S:\n    def __init__(self): self.sent = bytearray()\n    def send(self, b): self.sent.extend(b); return len(b)\n    def sendall(self, b): self.sent.extend(b)\n"
+                    "s = S(); st = MessageStream(s)\n"
+                    "k = %d - %d\ndata = chr(0xe9) * k + 'a' * (%d - 2 * k) if %d >= %d else 'a' * %d\n"
+                    "try:\n    st.send_msg(1, data); b = data.encode(); ok = bytes(s.sent) == bytes([1]) + len(b).to_bytes(2, 'big') + b\n    print('PYREPLAY', 'ok' if ok else 'mismatch')\nexcept Exception as e:\n    print('PYREPLAY', 'raised', type(e).__name__)\n"
+                    % (nbytes, nchars, nbytes, nbytes, nchars, nbytes))
+            d = os.path.join(s.root, "py")
+            os.makedirs(d, exist_ok=True)
+            with open(os.path.join(d, "ms_class.py"), "w") as f:
+                f.write("\n".join(l for l in src.splitlines() if re.match(r"^(import |from \S+ import )", l)) + "\n\n" + cls)
+            rc, out, _ = sh(["python3-vt", "-c", code, os.path.join(d, "ms_class.py")], timeout=120)
+            rep.replayed += 1
+            o["native_replay"] = out.strip()[-200:]
+            if "PYREPLAY ok" in out:
+                o["verdict"] = BROKEN
+                o["reason"] = "counterexample did not reproduce with the real class: " + o["reason"]
+
+
 def run(tier, seed, only=None):
     rep = Report("C25", tier, seed, "other",
                  "Bounded model checking (Kani/CBMC) of the REPL client framing in src/dummy.rs (Inst::from, Message::new, "
@@ -392,12 +539,13 @@ def run(tier, seed, only=None):
         confirm_violations(rep, s, [kr])
         if not only or "py" in only:
             crosshair(rep, s, tier)
+            py2smt_send(rep, s)
         rep.trusted += ["Kani 0.68, CBMC 6.11, CaDiCaL", "CrossHair + z3 (python3-vt)", "std::io::Read::read_exact / Write::write_all as compiled from std"]
         rep.assumptions += [
             "the stream delivers bytes in order without loss; read()/write() move any k >= 1 of the requested bytes (no EINTR, no zero-length reads before EOF)",
             "payload lengths beyond the listed ones are decided only through the size-field obligation (symbolic length <= 2^17, zero bytes)",
             "DummyVM::eval end to end (process spawn, TCP, compilation) is outside the claim",
-            "Python side: ASCII payloads (so that byte length == str length in the harness), at most the stated number of scripted chunk sizes, after which reads return everything available",
+            "Python side (CrossHair): payload bytes ASCII except the two non-ASCII shapes; the first 4 (quick) / 6 (thorough) socket calls take a symbolic chunk size, later calls transfer everything; symbolic payload *length* is decided by py2smt for send_msg only (contents opaque)",
             "std::fmt::format stubbed in the Rust harnesses (eprintln!/error text is not the subject)",
         ]
         rep.extra["kani_build_s"] = kr.build_s
